@@ -56,7 +56,7 @@ CLAIMED = {
           "DESIGN.md 0.3 + 7 C05", "Lean 4 proof (octet-count framing on the wire model) + monitors + differential correspondence (conv probe)",
           "that the octets handed to the backend are the payloads' concatenation with EOF only after LAST, and one reply per BDAT, are decided by the monitors and the correspondence (and one reply per command by C03's theorem on the model); one known finding (line limiter below bufio)"),
  "C06": C("C06_bound_data (never more than N octets for ANY input), C06_oversize_never_complete, C06_transparent proved for every stream and "
-          "schedule; on the server model C06_chunk_over_limit (a BDAT command that would take the message over the limit hands no delivery a single octet, records no "
+          "schedule, C06_eof_is_sticky (a reader that has reported the end of the message keeps reporting it whatever its budget says - a backend that reads once more after an exactly-N message sees what it would see without a limit; repaired, see known_findings.json; the dr probe reads once more after every EOF); on the server model C06_chunk_over_limit (a BDAT command that would take the message over the limit hands no delivery a single octet, records no "
           "end of file and leaves no transaction behind), C06_accepted_chunk_bounded (an accepted chunk hands no delivery more than its declared size) and C06_declared_size_refused (SIZE above the limit is refused by the parameter switch, before the backend); "
           "C06_no_delivery_over_limit / C06_accounting_invariant (whole connections of the server model: DATA and BDAT in any mixture, any number of chunks and "
           "transactions, completed, failed or abandoned transfers, every backend behaviour — no Data/LMTPData call is handed more than N octets; the invariant ties "
